@@ -114,6 +114,7 @@ static void st_create(int scope)
     for (i = 0; i < npool; i++) pool[i] = new_elem(i);
     for (i = 0; i < ntab; i++) {
         tcls[i] = i & 1;
+        memset(&T[i], 0x77, sizeof(T[i]));      /* recycled storage: cstl_hash_init must not rely on zeroed memory */
         /* both documented ways of making a table: cstl_hash_init and the static initialiser macro */
         if (use_macro) {
             if (tcls[i]) T[i] = (struct cstl_hash)CSTL_HASH_INITIALIZER(struct elem, node[1]);
@@ -403,7 +404,8 @@ static int st_apply(uint32_t op, int audit)
         break;
     }
     case K_RESIZE: {
-        const size_t n = a;
+        /* a == 0xfff stands for a bucket count whose array (2^40 buckets) the allocator refuses */
+        const size_t n = a == 0xfff ? (size_t)1 << 40 : a;
         const int f = b - 1;    /* -1 = NULL (keep) */
         const int was_pending = table_pending(t);
         float ld, want;
@@ -411,7 +413,15 @@ static int st_apply(uint32_t op, int audit)
         vrt_state(was_pending ? "while-pending" : ready[t] ? "idle" : "first");
         VRT_OP3("hash.resize", "t%ld n=%ld f=%ld", t, n, f);
         cstl_hash_resize(&T[t], n, f < 0 ? NULL : tramp[f]);
-        if (n >= 1) {
+        if (a == 0xfff) {
+            /* cannot be satisfied: nothing visible may change, now or at any later resize */
+            VRT_COUNT("op.resize.unsatisfiable");
+            if (ready[t] && mode == M_INCR) {
+                const float ld = cstl_hash_load(&T[t]);
+                if (ld != (float)nlive[t] / inforce[t].n)
+                    vrt_fail("hash.resize.unsatisfiable.load-changed", "load %g after a refused resize, geometry in force has %zu buckets", (double)ld, inforce[t].n);
+            }
+        } else if (n >= 1) {
             struct geo g;
             g.n = n;
             g.f = f >= 0 ? f : ready[t] ? inforce[t].f : NF;
@@ -791,6 +801,7 @@ static int build_alphabet(const struct cscope *s, uint32_t *al)
         }
         al[n++] = OP(K_REHASH, t, 0, 0);
         al[n++] = OP(K_SHRINK, t, 0, 0);
+        al[n++] = OP(K_RESIZE, t, 0xfff, 1 + s->f1);
     }
     if (s->nt > 1) al[n++] = OP(K_SWAP, 0, 0, 0);
     return n;
@@ -843,7 +854,7 @@ static void run_random(uint64_t idx)
         else if (r < 68) op = OP(K_ERASE, t, key, vrt_below(&g, 5) == 0);
         else if (r < 86) {
             /* resize storms: often a second and third request right away */
-            size_t n = vrt_below(&g, 8) == 0 ? (size_t)vrt_below(&g, 2) : 1 + vrt_below(&g, maxb);
+            size_t n = vrt_below(&g, 8) == 0 ? (size_t)vrt_below(&g, 2) : vrt_below(&g, 12) == 0 ? 0xfff : 1 + vrt_below(&g, maxb);
             op = OP(K_RESIZE, t, n, vrt_below(&g, NF + 1));
             if (vrt_below(&g, 3) == 0) { st_apply(op, 1); op = OP(K_RESIZE, t, 1 + vrt_below(&g, maxb), vrt_below(&g, NF + 1)); }
         }
